@@ -69,8 +69,45 @@ def cross(nd):
     return b
 
 
+BIG_SRC = r"""
+import sys, json
+import numpy as np
+import mahotas as mh
+kind, n = sys.argv[1], int(sys.argv[2])
+if kind == "row":
+    a = np.ones((1, n), bool); want = 1
+elif kind == "col":
+    a = np.ones((n, 1), bool); want = 1
+elif kind == "line":
+    a = np.ones(n, bool); want = 1
+elif kind == "serpentine":            # one path winding through the whole image: a single component with a very long chain
+    h = w = int(n ** 0.5) | 1
+    a = np.zeros((h, w), bool); a[::2] = True
+    for r in range(1, h, 2):
+        a[r, (w - 1) if (r // 2) % 2 == 0 else 0] = True
+    want = 1
+else:                                  # stripes: one component per second row, numbered top to bottom
+    h = w = int(n ** 0.5) | 1
+    a = np.zeros((h, w), bool); a[::2] = True; want = (h + 1) // 2
+lab, cnt = mh.label(a)
+ok = cnt == want and lab.shape == a.shape and bool(((lab != 0) == a).all())
+if kind == "stripes":
+    ok = ok and bool((lab[::2, 0] == np.arange(1, want + 1)).all()) and bool((lab[::2] == lab[::2, :1]).all())
+else:
+    ok = ok and int(lab.max()) == 1
+print(json.dumps({"ok": bool(ok), "count": int(cnt), "want": int(want), "shape": list(a.shape)}))
+"""
+
+
 def cases(ctx):
     rng = ctx.rng
+    # long chains: rows / columns / lines of up to two million pixels and a serpentine through a 1000 x 1000 image (one component
+    # each), stripes (many components).  They run in a process of their own: a crash is an observation, not the end of the check
+    for kind, n in ([("row", 1200000), ("col", 1200000), ("line", 2000000), ("serpentine", 1000000), ("stripes", 250000)]
+                    if ctx.tier == "quick" else
+                    [("row", 400000), ("row", 1200000), ("row", 3000000), ("col", 1200000), ("col", 3000000), ("line", 2000000),
+                     ("line", 5000000), ("serpentine", 1000000), ("serpentine", 4000000), ("stripes", 250000), ("stripes", 4000000)]):
+        yield {"kind": "big", "pattern": kind, "n": n}
     if ctx.tier == "thorough":
         for h in range(1, 5):
             for w in range(1, 5):
@@ -156,6 +193,21 @@ def run_one(ctx, a0, a, bc_arg, bc_arr, use_out=False):
 
 
 def run_case(ctx, case):
+    if case.get("kind") == "big":
+        import subprocess, sys, os, json
+        env = dict(os.environ, PYTHONPATH=ctx.lib)
+        try:
+            p = subprocess.run([sys.executable, "-c", BIG_SRC, case["pattern"], str(case["n"])], env=env, capture_output=True,
+                               text=True, timeout=300)
+        except subprocess.TimeoutExpired:
+            return Result(False, True, {"why": "label did not return within 300 s on a long chain", "pattern": case["pattern"], "n": case["n"]})
+        if p.returncode != 0:
+            return Result(False, True, {"why": "label crashed the interpreter on a long chain of foreground pixels",
+                                        "pattern": case["pattern"], "n": case["n"], "returncode": p.returncode, "stderr": p.stderr[-300:]})
+        r = json.loads(p.stdout.strip().splitlines()[-1])
+        if not r["ok"]:
+            return Result(False, True, {"why": "label != connected components on a large image", "pattern": case["pattern"], "detail": r})
+        return Result(True, True, None, "big/" + case["pattern"])
     dtype = case["dtype"]
     npdt = bool if dtype == "bool" else np.dtype(dtype)
     a0 = np.array(case["vals"], dtype=npdt).reshape(case["shape"])
@@ -191,6 +243,11 @@ def run_case(ctx, case):
 
 
 def shrink(ctx, case):
+    if case.get("kind") == "big":
+        for n in (case["n"] // 2, case["n"] * 3 // 4):
+            if n >= 1000:
+                c = dict(case); c["n"] = n; yield c
+        return
     if case.get("layout", "C") != "C":
         c = dict(case); c["layout"] = "C"; yield c
     for i, v in enumerate(case["vals"]):
